@@ -216,17 +216,79 @@ func (e *Engine) LookupFunc(key string) *ssa.Function {
 	return nil
 }
 
-// TypeString renders a type with package names (not paths) and without type arguments.
+// TypeString renders a type with package names (not paths) and without the type arguments of generic named
+// types.  (Slices, arrays and maps keep their brackets: "[]string", "[2]int", "map[string]int".)
 func TypeString(t types.Type) string {
-	s := types.TypeString(t, func(p *types.Package) string { return p.Name() })
+	var b strings.Builder
+	writeTypeNoArgs(&b, t)
+	return b.String()
+}
+
+func writeTypeNoArgs(b *strings.Builder, t types.Type) {
+	qual := func(p *types.Package) string { return p.Name() }
+	switch u := t.(type) {
+	case *types.Named:
+		if pkg := u.Obj().Pkg(); pkg != nil {
+			b.WriteString(pkg.Name())
+			b.WriteString(".")
+		}
+		b.WriteString(u.Obj().Name())
+	case *types.Alias:
+		if pkg := u.Obj().Pkg(); pkg != nil {
+			b.WriteString(pkg.Name())
+			b.WriteString(".")
+		}
+		b.WriteString(u.Obj().Name())
+	case *types.Pointer:
+		b.WriteString("*")
+		writeTypeNoArgs(b, u.Elem())
+	case *types.Slice:
+		b.WriteString("[]")
+		writeTypeNoArgs(b, u.Elem())
+	case *types.Array:
+		fmt.Fprintf(b, "[%d]", u.Len())
+		writeTypeNoArgs(b, u.Elem())
+	case *types.Map:
+		b.WriteString("map[")
+		writeTypeNoArgs(b, u.Key())
+		b.WriteString("]")
+		writeTypeNoArgs(b, u.Elem())
+	case *types.Chan:
+		switch u.Dir() {
+		case types.SendOnly:
+			b.WriteString("chan<- ")
+		case types.RecvOnly:
+			b.WriteString("<-chan ")
+		default:
+			b.WriteString("chan ")
+		}
+		writeTypeNoArgs(b, u.Elem())
+	default:
+		// basic types, type parameters, struct / interface / function literals: the standard rendering, with the
+		// type arguments of generic named types inside them removed (a bracket group directly after an identifier
+		// that is not the keyword map)
+		s := types.TypeString(t, qual)
+		b.WriteString(stripTypeArgs(s))
+	}
+}
+
+var reIdentBracket = regexp.MustCompile(`([A-Za-z0-9_]+)\[[^\[\]]*\]`)
+
+func stripTypeArgs(s string) string {
 	for {
-		n := reTypeArgs.ReplaceAllString(s, "")
+		n := reIdentBracket.ReplaceAllStringFunc(s, func(m string) string {
+			sub := reIdentBracket.FindStringSubmatch(m)
+			if sub[1] == "map" {
+				return strings.Replace(m, "[", "\x00", 1) // protect, restored below
+			}
+			return sub[1]
+		})
 		if n == s {
 			break
 		}
 		s = n
 	}
-	return s
+	return strings.ReplaceAll(s, "\x00", "[")
 }
 
 // LookupGoType resolves a type written in a contract: "*Name", "Name", "pkg.Name", "[]Name".
